@@ -136,6 +136,7 @@ class Tr:
         self.listouts = []       # list ports written in a map-loop
         self.rnd = False
         self.guards = []         # informational: Python-level error conditions met (div, shifts)
+        self.has_asserts = False
 
     def fresh(self, base):
         self.cnt += 1
@@ -263,7 +264,12 @@ class Tr:
         if isinstance(e, ast.Call) and isinstance(e.func, ast.Name) and e.func.id == 'not' and len(e.args) == 1:
             return '(negb %s)' % self.tr_bool(e.args[0], env)
         if isinstance(e, ast.Compare):
-            if len(e.ops) != 1: raise Unsupported('chained comparison')
+            if len(e.ops) != 1:
+                # a < b <= c  ==  (a < b) and (b <= c); operands here are pure expressions, so evaluating b twice is harmless
+                parts, left = [], e.left
+                for op, right in zip(e.ops, e.comparators):
+                    parts.append(self.tr_bool(ast.Compare(left=left, ops=[op], comparators=[right]), env)); left = right
+                return '(' + ' && '.join(parts) + ')'
             op, l, r = e.ops[0], e.left, e.comparators[0]
             if isinstance(op, (ast.Is, ast.IsNot)):
                 if self.is_self_attr(l) and isinstance(r, ast.Constant) and r.value is None and \
@@ -294,6 +300,8 @@ class Tr:
                 elif isinstance(n, ast.Call) and isinstance(n.func, ast.Attribute) and n.func.attr in ('put', 'prepare') \
                         and self.is_self_attr(n.func.value):
                     add('val:' + n.func.value.attr); add('flag:' + n.func.value.attr)
+                elif isinstance(n, ast.Assert):
+                    add('#ok')
         return out
 
     def state_read(self, key, env):
@@ -377,6 +385,13 @@ class Tr:
                 cur = self.state_read(key, env)
                 self.bind(env, lines, ind, key, BIN[type(st.op)].format(cur, self.tr_int(st.value, env)), 'n_' + t.attr); return
             raise Unsupported('augassign target')
+        if isinstance(st, ast.Assert):
+            # an assert must never fire on in-range inputs: its condition is accumulated into the pseudo-variable #ok and becomes the
+            # proof obligation <name>_asserts_hold generated next to the definition (fail-closed: if it is not provable automatically the
+            # generated file does not compile and every dependent obligation breaks)
+            self.has_asserts = True
+            self.bind(env, lines, ind, '#ok', '(%s && %s)' % (env.get('#ok', 'true'), self.tr_bool(st.test, env)), 'ok')
+            return
         if isinstance(st, ast.If):
             return self.stmt_if(st, env, lines, ind)
         if isinstance(st, ast.For):
@@ -397,6 +412,8 @@ class Tr:
                 env.setdefault(k, '0')
             elif k.startswith('flag:'):
                 env.setdefault(k, 'false')
+            elif k == '#ok':
+                env.setdefault(k, 'true')
 
     def stmt_if(self, st, env, lines, ind):
         c = self.tr_bool(st.test, env)
@@ -444,7 +461,7 @@ class Tr:
             return
         names = []
         for k in merged:
-            base = k.replace('self.', 'n_').replace('val:', 'o_').replace('flag:', 'f_').replace('iw:', 'w_').replace('iv:', 'v_')
+            base = k.replace('self.', 'n_').replace('val:', 'o_').replace('flag:', 'f_').replace('iw:', 'w_').replace('iv:', 'v_').replace('#ok', 'ok')
             names.append(self.fresh(base))
         pat = names[0] if len(names) == 1 else "'(%s)" % ', '.join(names)
         def tup(e2):
@@ -501,7 +518,7 @@ class Tr:
             self.prepare_keys(keys, env)
             keys = [k for k in keys if env.get(k) is not None]
             if not keys: raise Unsupported('loop without effect')
-            names = [self.fresh(k.replace('self.', 'n_').replace('val:', 'o_').replace('flag:', 'f_')) for k in keys]
+            names = [self.fresh(k.replace('self.', 'n_').replace('val:', 'o_').replace('flag:', 'f_').replace('#ok', 'ok')) for k in keys]
             iv = self.fresh(i)
             e2 = dict(env); e2[i] = iv
             for k, n in zip(keys, names): e2[k] = n
@@ -512,7 +529,7 @@ class Tr:
             rest = res[0] if len(res) == 1 else '(%s)' % ', '.join(res)
             init = [env[k] for k in keys]
             initt = init[0] if len(init) == 1 else '(%s)' % ', '.join(init)
-            outn = [self.fresh(k.replace('self.', 'n_').replace('val:', 'o_').replace('flag:', 'f_')) for k in keys]
+            outn = [self.fresh(k.replace('self.', 'n_').replace('val:', 'o_').replace('flag:', 'f_').replace('#ok', 'ok')) for k in keys]
             opat = outn[0] if len(outn) == 1 else "'(%s)" % ', '.join(outn)
             lines.append('%slet %s := fold_left (fun %s %s =>' % (ind, opat, pat, iv))
             lines.extend(l2)
@@ -627,7 +644,22 @@ def translate_method(ci, mname, kind, prefix=None):
     body.append('  %s.' % rexpr)
     sig = {'name': fname, 'params': params, 'state': state, 'outs': [list(o) for o in outs], 'listouts': tr.listouts,
            'result': rty}
-    return '\n'.join(pre + [hdr] + body) + '\n', sig
+    text = '\n'.join(pre + [hdr] + body) + '\n'
+    if tr.has_asserts:
+        # same body, returning the conjunction of the reached assert conditions; must be `true` for every in-range input
+        ahdr = 'Definition %s_asserts %s : bool :=' % (fname, ' '.join('(%s : %s)' % p for p in params))
+        abody = body[:-1] + ['  %s.' % env.get('#ok', 'true')]
+        hyps = []
+        pn = [p[0] for p in params]
+        for n, t in params:
+            if n.startswith('w_'): hyps.append('0 <= %s' % n)
+            if n.startswith('v_') and t == 'Z':
+                hyps.append('0 <= %s < 2 ^ %s' % (n, 'w_' + n[2:]) if ('w_' + n[2:]) in pn else '0 <= %s' % n)
+        lem = 'Lemma %s_asserts_hold : forall %s, %s%s_asserts %s = true.\nProof. unfold %s_asserts. auto_assert. Qed.' % (
+            fname, ' '.join(pn), ''.join(h + ' -> ' for h in hyps), fname, ' '.join(pn), fname)
+        text += '\n'.join([ahdr] + abody) + '\n' + lem + '\n'
+        sig['asserts'] = True
+    return text, sig
 
 
 def is_list_attr(ci, a, m):
@@ -672,7 +704,7 @@ def find_func(tree, cls, name):
         if isinstance(f, ast.FunctionDef) and f.name == name: return f
     return None
 
-HEADER = '(* GENERATED by /verif/py/py2coq.py from %s -- do not edit; regenerated on every check *)\nFrom V Require Import Base.PyInt.\n'
+HEADER = '(* GENERATED by /verif/py/py2coq.py from %s -- do not edit; regenerated on every check *)\nFrom V Require Import Base.PyInt Base.Bits.\n'
 
 def wire_ops(repo):
     """Wire.put / Wire.prepare (and the BidirWire copies) from base.py -> value stored as a function of (width, val)."""
